@@ -5,6 +5,7 @@ import Spydr.Edif.Props.C03Fragment
 import Spydr.Edif.Props.C05Denote
 import Spydr.Edif.Props.C05Struct
 import Spydr.Edif.Props.C05Kw
+import Spydr.Edif.Props.Fragment
 #print axioms Spydr.Edif.C05.readS_flatten
 #print axioms Spydr.Edif.C05.multibit_merge
 #print axioms Spydr.Edif.C05.multibit_merge_general
@@ -69,3 +70,5 @@ import Spydr.Edif.Props.C05Kw
 #print axioms Spydr.Edif.C05.keyword_respelling_invisible
 #print axioms Spydr.Edif.C05.edif_reader_spec_kwcase
 #print axioms Spydr.Edif.C05.edif_reader_spec_kwcase_text
+#print axioms Spydr.Edif.C03.fragment_check_sound
+#print axioms Spydr.Edif.C05.fragment_check_sound
